@@ -88,8 +88,14 @@ def rule_pitchtables(ctx):
     yield ob(R, f, "chord.pitch_class_to_semitone:accidentals", sharp and flat and base, "each '#' adds 1, each 'b' subtracts 1, the letter comes from PITCH_CLASSES")
     g = ctx.program.func("key.split_key_string", R)
     sg = ctx.S.get(g.qual)
-    t = sg.returns[0].term
-    good = t.op == "tuple" and t.a[0].op == "sub" and t.a[0].a[0].op == "glob" and t.a[0].a[0].a[0] == "key.KEY_TO_SEMITONE" and any(x.op == "call" and call_name(x) == ".lower" for x in tm.walk(t.a[0].a[1]))
+    def _lookup_ok(t):
+        if not (t.op == "tuple" and t.a and t.a[0].op == "sub" and t.a[0].a[0].op == "glob" and t.a[0].a[0].a[0] == "key.KEY_TO_SEMITONE"):
+            return False
+        k = t.a[0].a[1]
+        # the lower-cased name, or a literal that is already lower case
+        return any(x.op == "call" and call_name(x) == ".lower" for x in tm.walk(k)) or (k.op == "const" and isinstance(k.a[0], str) and k.a[0] == k.a[0].lower())
+
+    good = bool(sg.returns) and all(_lookup_ok(r.term) for r in sg.returns)
     yield ob(R, g, "key.split_key_string:lookup", good, "the key number is KEY_TO_SEMITONE[name.lower()]")
 
 
@@ -257,7 +263,9 @@ def rule_logpitch(ctx):
             kids = tm.children(x)
             for k in kids:
                 if k is rc or k is ec:
-                    okk = (x.op == "bin" and x.a[0] == "-" and {x.a[1], x.a[2]} == {rc, ec}) or (x.op == "cmp" and x.a[0] == "!=" and any(tm.is_const(z, 0) for z in (x.a[1], x.a[2])))
+                    okk = (x.op == "bin" and x.a[0] == "-" and {x.a[1], x.a[2]} == {rc, ec}) or (x.op == "cmp" and x.a[0] in ("!=", "==") and any(tm.is_const(z, 0) for z in (x.a[1], x.a[2])))
+                    # the number of frames is not a pitch value
+                    okk = okk or (x.op == "attr" and x.a[1] in ("size", "shape")) or (x.op == "call" and call_name(x) == "builtins.len")
                     if not okk:
                         bad.append(tm.show(x, 2))
         yield ob(R, f, "%s:cents-as-difference" % q, not bad, "cent values are used only in ref_cent - est_cent and in the `!= 0` unvoiced test" if not bad else "cent value used by %s" % sorted(set(bad))[:3])
